@@ -1040,6 +1040,18 @@ pub fn crashes(rng: &mut Rng, thorough: bool) -> ImgScenario {
         groups.push((g, n0));
     }
     push(&mut ops, &mut live, b);
+    // sometimes a stored group is deleted completely first (its page is cleared: the bucket becomes a
+    // tombstone) and re-created by the INTERRUPTED commit: the redo has to put a page into a bucket
+    // whose meta byte on disk is a tombstone
+    let mut dead: Vec<bool> = vec![false; groups.len()];
+    for (gi, (g, n)) in groups.iter_mut().enumerate() {
+        if *n >= 21 && rng.chance(1, 2) {
+            let d: Vec<(Key, Acc)> = g[..*n].iter().map(|k| (*k, Acc::Write(None))).collect();
+            push(&mut ops, &mut live, d);
+            *n = 0;
+            dead[gi] = true;
+        }
+    }
     let rounds = rng.range(1, if thorough { 4 } else { 2 });
     for _ in 0..rounds {
         let mode = if rng.chance(2, 3) { 2u8 } else { 1 };
@@ -1049,7 +1061,16 @@ pub fn crashes(rng: &mut Rng, thorough: bool) -> ImgScenario {
         ops.push(Op::Open(pc));
         let sz = rng.range(0, 30) as usize;
         let mut b = gen_batch(rng, &mut kg, &live, &BatchSpec { size: sz, mix: ValueMix::Mixed, p_delete: 30, p_read: 0, p_rw: 30, p_existing: 60 });
-        for (g, n) in groups.iter_mut() {
+        for (gi, (g, n)) in groups.iter_mut().enumerate() {
+            if dead[gi] {
+                let n1 = rng.range(21, 30) as usize;
+                b.extend(g[..n1].iter().map(|k| (*k, Acc::Write(Some(gen_value(rng, ValueMix::Small))))));
+                if mode == 2 {
+                    *n = n1;
+                    dead[gi] = false;
+                }
+                continue;
+            }
             if rng.chance(1, 5) {
                 continue;
             }
